@@ -169,7 +169,10 @@ class ZConfigParser:
 
     def handle_include(self, section, rest):
         rest = self.replace(rest.strip())
-        newurl = ZConfig.url.urljoin(self.url, rest)
+        try:
+            newurl = ZConfig.url.urljoin(self.url, rest)
+        except ValueError as e:
+            self.error("invalid URL in %include directive: " + str(e))
         self.context.includeConfiguration(section, newurl, self.defines)
 
     def handle_define(self, section, rest):
